@@ -9,6 +9,7 @@ import (
 	"errors"
 	"fmt"
 	"io"
+	"io/fs"
 	"os"
 	"path/filepath"
 	"reflect"
@@ -144,9 +145,27 @@ type chunkReader struct {
 	style int
 	// seekLimit > 0: only that many calls of Seek succeed
 	seekLimit, seeks int
+	// errVal: the fault itself (nil: errInjected)
+	errVal error
 }
 
 var errInjected = errors.New("injected read fault")
+
+// faults of other makes: the end of data is io.EOF ITSELF; an error that wraps it, claims to be it, or is a relative of it is a fault
+type errClaimsEOF struct{}
+
+func (errClaimsEOF) Error() string        { return "connection reset (claims to be EOF)" }
+func (errClaimsEOF) Is(target error) bool { return target == io.EOF }
+
+var faultValues = []error{errInjected, fmt.Errorf("stream truncated: %w", io.EOF), io.ErrUnexpectedEOF, &fs.PathError{Op: "read", Path: "query", Err: io.EOF}, errClaimsEOF{},
+	fmt.Errorf("outer: %w", fmt.Errorf("inner: %w", io.EOF)), io.ErrClosedPipe}
+
+func (r *chunkReader) fault() error {
+	if r.errVal != nil {
+		return r.errVal
+	}
+	return errInjected
+}
 
 func (r *chunkReader) Read(p []byte) (int, error) {
 	if r.failed {
@@ -154,11 +173,11 @@ func (r *chunkReader) Read(p []byte) (int, error) {
 		case 1, 3:
 			return 0, io.EOF
 		}
-		return 0, errInjected
+		return 0, r.fault()
 	}
 	if r.failAt >= 0 && r.pos >= r.failAt {
 		r.failed = true
-		return 0, errInjected
+		return 0, r.fault()
 	}
 	if r.pos >= len(r.data) {
 		return 0, io.EOF
@@ -179,13 +198,13 @@ func (r *chunkReader) Read(p []byte) (int, error) {
 		copy(p, r.data[r.pos:r.pos+n])
 		r.pos += n
 		r.failed = true
-		return n, errInjected
+		return n, r.fault()
 	}
 	if r.failAt >= 0 && r.pos+n > r.failAt {
 		n = r.failAt - r.pos
 		if n == 0 {
 			r.failed = true
-			return 0, errInjected
+			return 0, r.fault()
 		}
 	}
 	copy(p, r.data[r.pos:r.pos+n])
@@ -251,7 +270,9 @@ func genGrammarQuery(r *rng, depth int) string {
 
 var gKeys = []string{"a", "b", "k", "xs", "Key", "n_1", "é", "a?", "b?", "k?", "?", "xs?"}
 var gNums = []string{"0", "1", "-1", "1.5", "-0.25", "1e3", "2.5e-3", "123456789012345", "0.1", "10", "1E2", "007", "+3", "1e-7", "0700", "010", "0x1F", "0x10", "0b11", "0o17", "1_000", "0_17", "0x1p-2", "08", "00.5"}
-var gStrs = []string{`""`, `"abc"`, `"a b"`, `"a\"b"`, `"a\\b"`, `"l1\nl2"`, `"t\tb"`, `"é"`, `"'"`, "\"`\"", `"\\n"`, `"\\\""`, `"$.a"`, `"x,y"`, `"(]"`, `"日本"`}
+var gStrs = []string{`""`, `"abc"`, `"a b"`, `"a\"b"`, `"a\\b"`, `"l1\nl2"`, `"t\tb"`, `"é"`, `"'"`, "\"`\"", `"\\n"`, `"\\\""`, `"$.a"`, `"x,y"`, `"(]"`, `"日本"`,
+	// runes beyond the basic plane: printable (an emoji, a CJK extension ideograph) and hidden ones (tag characters as in the flag of England, a language tag, private-use glyphs), and hidden runes of the basic plane
+	"\"\U0001F3F4\U000E0067\U000E0062\U000E0065\U000E006E\U000E0067\U000E007F\"", "\"a\U000E0001b\"", "\"\U000F0001\"", "\"\U00100000x\"", "\"\U0001F600\"", "\"\U00020000\"", "\"\u00a0\u200b\ufeff\"", "\"\u0001\u007f\"", "\"\U0010FFFF\"", "\"\U0001D173\""}
 
 func gArg(r *rng, depth int, fns []string) string {
 	switch r.Intn(8) {
@@ -497,7 +518,7 @@ func runParse(c *Ctx, std *fdCapture) {
 					}
 				}
 				for _, k := range offs {
-					cr := &chunkReader{data: []byte(q), failAt: k, chunks: func() int { return 1 + r.Intn(4) }, style: (k + c.N) % 4}
+					cr := &chunkReader{data: []byte(q), failAt: k, chunks: func() int { return 1 + r.Intn(4) }, style: (k + c.N) % 4, errVal: faultValues[(k+c.N/4)%len(faultValues)]}
 					if k == 0 && cr.style != 0 {
 						cr.style = 3
 					}
